@@ -225,6 +225,28 @@ def check(ctx):
                        f"all three suffixes are {verb}ed" if not missing else
                        f"docstring says 'Will automatically {verb} if path ends in .bz2|.gz|.xz' but {missing} are not {verb}ed "
                        f"by the API the path is handed to", clause="really compressed on write and transparently decompressed on read")
+    # a file opened from the user's path is handed to the (de)serialiser as the file OBJECT; handing on its .name makes
+    # the callee open a second file by name, with its own naming rules (np.savez appends '.npz' to names, not to objects)
+    n_with = 0
+    for wq, rq in PAIRS:
+        for q in (wq, rq):
+            fn = repo.fn(q)
+            bound = {}
+            for w_ in [n for n in body_nodes(fn.node) if isinstance(n, ast.With)]:
+                for it in w_.items:
+                    if isinstance(it.optional_vars, ast.Name) and isinstance(it.context_expr, ast.Call) \
+                            and any(isinstance(x, ast.Name) and x.id == "path" for a in it.context_expr.args for x in ast.walk(a)):
+                        bound[it.optional_vars.id] = w_
+            for fname, w_ in bound.items():
+                n_with += 1
+                byname = [n for b in w_.body for n in ast.walk(b) if isinstance(n, ast.Attribute) and n.attr == "name"
+                          and isinstance(n.value, ast.Name) and n.value.id == fname]
+                ctx.ob("TNT-route", fn, f"file {fname} opened from path is used as an object", byname[0] if byname else w_, not byname,
+                       "the open file itself is read / written" if not byname else
+                       f"{norm(byname[0])} is handed on instead of the open file: the callee opens a file of its own by that name (np.savez "
+                       f"appends '.npz' unless the name ends so), so the data lands in another file than the one the reader opens",
+                       clause="reading back a file written by the matching write method")
+    ctx.count("files opened from the path", n_with, 8)
     ctx.count("reader/writer methods routed", n_methods, 16)
     # -------------------------------------------------------------- FWD-live
     n_opts = 0
